@@ -40,7 +40,8 @@ type SrcPlan struct {
 
 // DstPlan scripts AddSequencedLeaves calls by the index of the first leaf (modulo len(DstPlans)): the
 // first Quota calls for one start index are answered ResourceExhausted, the next FatalN ones with the
-// gRPC code Fatal, later ones reach the reference backend.
+// gRPC code Fatal (incl. Canceled / DeadlineExceeded coming from the backend, or fatalWrappedCancel), later
+// ones reach the reference backend.
 type DstPlan struct {
 	Quota  int
 	Fatal  int
@@ -234,8 +235,8 @@ func (c *Case) normalise() {
 	for i := range c.DstPlans {
 		p := &c.DstPlans[i]
 		clamp(&p.Quota, 0, 5)
-		clamp(&p.Fatal, 0, 16)
-		if p.Fatal == 1 || p.Fatal == 8 { // Canceled is scripted through CancelAtAdd, ResourceExhausted through Quota
+		clamp(&p.Fatal, 0, fatalWrappedCancel)
+		if p.Fatal == 8 { // ResourceExhausted is scripted through Quota
 			p.Fatal = 13
 		}
 		clamp(&p.FatalN, 0, 3)
@@ -312,7 +313,12 @@ func (c *Case) normalise() {
 	}
 }
 
-var fatalCodes = []int{13, 7, 3, 2, 9, 14, 4, 10, 5, 16}
+// fatalWrappedCancel is not a gRPC code: the reply is a plain (non-status) error wrapping context.Canceled,
+// as a proxy or interceptor in front of the backend may produce; the migrator's own contexts stay alive.
+const fatalWrappedCancel = 17
+
+// Codes a destination may answer with (1 = Canceled, 4 = DeadlineExceeded: the backend gave up, not the caller).
+var fatalCodes = []int{13, 7, 3, 2, 9, 14, 4, 10, 5, 16, 1, 1, 4, fatalWrappedCancel}
 
 func genSrcFault(t *rapid.T, label string, special bool) int {
 	hi := fSlow
